@@ -464,6 +464,8 @@ func c17Instantiations(w *rt.W, s string) {
 }
 
 func runC17(c *rt.Ctx) {
+	configuredEpisode() // the process has a past: failing configured Formatters and Parsers, since restored
+	c.Extra("history_before_the_streams", "an episode of failing configured Formatter/Parser variables in all five packages")
 	nHist := c.Pick(20000, 600000)
 	c.SetRule(fmt.Sprintf("per type (date, roman, sem, size, uu) %d seeded histories of %d operations on one receiver: UnmarshalText (all), UnmarshalJSON (size), UnmarshalBinary and Scan (date), inputs drawn from valid texts of non-zero values, single-byte mutations, truncations, over-long and empty inputs, wrong-type Scan sources, wrong length/version and month/day-invalid binaries, with a failing call forced after two thirds of the successful ones; ", nHist, c17HistoryLen) +
 		"every input is carved from a larger array with guard bytes (snapshot before, compare after, then overwritten) and the receiver is compared with a deep-copied model after every step and after the overwrite; separately a pool of valid and near-valid inputs goes through 14 generic entry points instantiated at string, []byte, a named string type and a named byte-slice type. " +
